@@ -135,7 +135,10 @@ def surface_insert(ctx, pu, pv, mu, mv, dirs, r, rational):
 
 def _vol_shapes(tier):
     base = [dict(deg=[1, 1, 1], m=[[], [], []], d=0, r=1), dict(deg=[1, 1, 1], m=[[], [], []], d=1, r=1),
-            dict(deg=[1, 1, 1], m=[[], [], []], d=2, r=1), dict(deg=[2, 1, 1], m=[[1], [], []], d=0, r=1)]
+            dict(deg=[1, 1, 1], m=[[], [], []], d=2, r=1), dict(deg=[2, 1, 1], m=[[1], [], []], d=0, r=1),
+            # two insertions in one call: the inserted layers must not alias each other
+            dict(deg=[2, 1, 1], m=[[], [], []], d=0, r=2), dict(deg=[1, 2, 1], m=[[], [], []], d=1, r=2),
+            dict(deg=[1, 1, 2], m=[[], [], []], d=2, r=2)]
     if tier == 'thorough':
         base += [dict(deg=[2, 2, 1], m=[[1], [], []], d=1, r=2), dict(deg=[1, 2, 2], m=[[], [1], []], d=2, r=1),
                  dict(deg=[2, 1, 2], m=[[], [], [1]], d=2, r=2)]
